@@ -516,6 +516,16 @@ func (r *rateLimiter) startLeading(shardId int) {
 			if err != nil {
 				return err
 			}
+			// The instances on record have not had the time to send this server a
+			// heartbeat yet (they learn about a new leader within seconds). They
+			// count as heard from now, so that the heartbeat timeout decides about
+			// them as about every other instance, not the next sweep of unknown
+			// instances, which may be due at once.
+			for _, condition := range limitStore.List(labels.Everything()) {
+				if len(condition.Spec.Instance) > 0 {
+					r.clientCache.Heartbeat(condition.Spec.Instance)
+				}
+			}
 			return r.syncUpstreamClustersForShard(shardId)
 		}()
 		if err != nil {
